@@ -743,4 +743,3 @@ package gorm
 //@   let select0 = db.Statement.Clauses["SELECT"]
 //@   ensures ordering-restored: hadOrder && !grouped ==> has(result.Statement.Clauses, "ORDER BY") && result.Statement.Clauses["ORDER BY"] == order0
 //@   ensures selection-restored: hadSelect ==> has(result.Statement.Clauses, "SELECT") && result.Statement.Clauses["SELECT"] == select0
-//@   ensures no-selection-left-behind: !hadSelect ==> !has(result.Statement.Clauses, "SELECT")
